@@ -146,6 +146,15 @@ CHECKS = {
             "length 3; success/refusal, the resulting structure and membership are decided exactly by TLC.",
             "Trusted: TLC, projection of feature structures by node identity. Pairs are sampled; words up to length 3.",
             "DESIGN.md section 3 C18"),
+    "C19": ("TLA+ API signature state machine (ValueSemantics: queries, conversions, binary operations and mutators over a "
+            "typed heap; action properties Frame and Stable checked by TLC) generates call histories - exhaustively to "
+            "depth 2|3 and by simulation to depth 10|12; each history is replayed on real long-lived objects and judged "
+            "by TraceHist: snapshots of all live objects may change only for the receiver of a mutator, every answer "
+            "must equal the answer on freshly rebuilt equal objects and be functional in (value, call)",
+            "History-quantified: spec-generated sequences of public calls (repeated calls, conversions of conversions, "
+            "the same object as both operands, mutation of returned objects) over twelve root-type pairs.",
+            "Trusted: TLC, snapshots/fingerprints of harness/hist.py. Root objects from a small catalogue; histories sampled "
+            "beyond depth 2.", "DESIGN.md section 3 C19"),
 }
 
 NOT_YET = "check not built yet in this round (see DESIGN.md section 9, build order); no claim is made"
